@@ -100,6 +100,7 @@ class Prop(PropBase):
                     for h in range(5 - oy):
                         r = "%d %d %d %d" % (ox, oy, w, h)
                         cs.append(Case(line(5, 4, pre + ["it " + r, "cit " + r]), sweep="subrects-5x4", tag="subrect"))
+                        cs.append(Case(line(5, 4, pre + ["itb " + r, "iti " + r, "itp " + r]), sweep="subrects-5x4-returning-visitors", tag="subrect"))
         # ---- 3. every cell assigned alone: exactly that position of begin()..end() changes
         for W, H in ((5, 4), (1, 7), (7, 1)):
             for y in range(H):
@@ -189,7 +190,7 @@ class Prop(PropBase):
                 if w > 0 and h > 0 and rng.random() < 0.4:
                     ox = rng.randrange(w)
                     oy = rng.randrange(h)
-                    ops.append("%s %d %d %d %d" % (rng.choice(["it", "cit"]), ox, oy, rng.randrange(w - ox + 1),
+                    ops.append("%s %d %d %d %d" % (rng.choice(["it", "cit", "itb", "iti", "itp"]), ox, oy, rng.randrange(w - ox + 1),
                                                   rng.randrange(h - oy + 1)))
                 if w > 0 and h > 0 and rng.random() < 0.3:
                     ops.append("%s %d %d" % (rng.choice(["gt", "cgt"]), rng.randrange(w), rng.randrange(h)))
@@ -232,7 +233,7 @@ class Prop(PropBase):
                 else:
                     ox, oy = rng.randrange(w + 1), rng.randrange(h + 1)
                     rw, rh = rng.randrange(w - ox + 1), rng.randrange(h - oy + 1)
-                ops.append("%s %d %d %d %d" % (rng.choice(["it", "cit"]), ox, oy, rw, rh))
+                ops.append("%s %d %d %d %d" % (rng.choice(["it", "cit", "itb", "iti", "itp"]), ox, oy, rw, rh))
             cs.append(Case(line(w, h, ops), tag="region"))
         # ---- 6. out-of-domain / malformed lines: model vs code only
         for _ in range(200 if tier == "quick" else 2000):
